@@ -48,6 +48,7 @@ import (
 
 type modelConn struct {
 	m        *common.Model
+	src      *modelConn // the translated segments (src.go), nil when their binary is missing
 	pseudoRE *regexp.Regexp
 	supplied int
 	rounds   int
@@ -866,6 +867,8 @@ func (rn *runner) evalDir(td *TestDir, seed uint64, only *request, report bool) 
 		return fails
 	}
 	modelStarts := mans[1] != "err"
+	// the translated segments of proxy.go on the same directory and requests (src.go)
+	rn.srcCompare(mc, td, root, dreq, reqs, mans, report, fail)
 	// every x/mod decision the model took for this directory, against x/mod itself
 	for _, fl := range rn.checkXlog(mc) {
 		fail(fl.kind, fl.oracle, "", fl.model, fl.impl, fl.detail)
@@ -1535,6 +1538,9 @@ func main() {
 			}
 			mc.pseudoRE = regexp.MustCompile(`^$`)
 		}
+		if mc.src = startSrc(f, res, i == 0); mc.src != nil {
+			defer mc.src.m.Close()
+		}
 		conns = append(conns, mc)
 		rn.models <- mc
 	}
@@ -1726,6 +1732,7 @@ func main() {
 	t3 := time.Now()
 	rn.goModDownload(all, nE2E)
 	tE2E = time.Since(t3)
+	res.Notes = append(res.Notes, srcTimeNote())
 	res.Notes = append(res.Notes, fmt.Sprintf("time: model %.1fs (first pass %.1fs, oracle rounds %.1fs), sequential HTTP %.1fs, concurrent HTTP %.1fs, big-archive concurrent rounds %.1fs, many-versions concurrent rounds %.1fs, go mod download %.1fs", tModel.Seconds(), tFirst.Seconds(), tRounds.Seconds(), tSeq.Seconds(), tConc.Seconds(), tBig.Seconds(), tMany.Seconds(), tE2E.Seconds()))
 
 	res.Notes = append(res.Notes, fmt.Sprintf("%d oracle-table entries supplied to the model on demand in %d rounds, %d requests re-asked (x/mod CheckPath, checkElem, Check, semver.IsValid/Compare, pseudoVersionRE, json Short)", sumConns(conns, 0), sumConns(conns, 1), sumConns(conns, 2)),
